@@ -189,11 +189,20 @@ def job_neutral(args):
     from . import rawsfnt as R
 
     _quiet()
-    label = "%s#%d" % (common.rel(path), idx)
+    if isinstance(path, tuple):  # ("synthetic", i): a generated font, saved once as plain sfnt to serve as the source file
+        rs = random.Random("synth-neutral-%d-%d" % (path[1], seed))
+        sf = fonts.synthetic_glyf_font(rs, nglyphs=rs.randint(4, 12), max_depth=rs.randint(1, 3))
+        sf.recalcTimestamp = False
+        label = "synthetic-neutral#%d" % path[1]
+        path = io.BytesIO(_save(sf))
+    else:
+        label = "%s#%d" % (common.rel(path), idx)
     out = []
     datas = {}
     for fl in (None, "woff", "woff2"):
         try:
+            if hasattr(path, "seek"):
+                path.seek(0)
             f = TTFont(path, fontNumber=idx, recalcTimestamp=False)
             f.flavor = fl
             datas[fl] = _save(f)
@@ -308,7 +317,7 @@ def run(chk):
     records += [r for rs in res for r in rs]
     # ---- flavour neutrality
     nsel = members if thorough else rng.sample(members, min(70, len(members)))
-    res = common.pmap(job_neutral, [(p, i, seed) for p, i in nsel])
+    res = common.pmap(job_neutral, [(p, i, seed) for p, i in nsel] + [(("synthetic", k), 0, seed) for k in range(60 if thorough else 24)])
     records += [r for rs in res for r in rs]
     # ---- collections
     singles = [p for p in bins if fonts.num_fonts_in(p) == 1 and p.lower().endswith((".ttf", ".otf"))]
